@@ -79,6 +79,17 @@ pub fn run(cx: &mut Ctx) {
     }
     cx.exhaustive_blocks.push(format!("all keyed inputs of length <= {maxlen} over 2 keys x 6 barrier tails x seq + par 1..6 ({n_ex} programs)"));
 
+    // large partitions (above the planner's 64k rows/partition target), oracle only
+    {
+        let n = if cx.tier == crate::ctx::Tier::Quick { 70_001 } else { 140_003 };
+        let src = large_keyed_source(n, 13);
+        for steps in [vec![Step::MapValues(Fn_::Add(1)), Step::Filter(Pred::Even)], vec![Step::Gbk, Step::Glen], vec![Step::CombineValues(Comb::MaxT)],
+                      vec![Step::Values, Step::CombineGlobally(Comb::Count, Some(3))]] {
+            let p = Prog { shape: Shape::KV, src: src.clone(), steps };
+            check_prog_oracle_only(cx, &p, &format!("rows={n} keys=13"), &[Mode::Seq, Mode::Par(2), Mode::Par(7)]);
+        }
+    }
+
     // random programs: every transform family, joins with transformed sides, global combines with any fan-out
     let opts = GenOpts { max_steps: 10, max_rows: cx.budget(24, 120), barriers: true, joins: true, globals: true, nonlocal_batches: false };
     let rounds = cx.budget(350, 6000);
